@@ -61,6 +61,12 @@ const KEEP: &[&str] = &[
 ];
 
 pub fn one_run(shape: &Shape, ex: &mut Explorer) -> (Vec<Value>, Value, bool) {
+    one_run_impl(shape, ex, None)
+}
+
+/// `free`: Some(spin counts) runs the same threads uncontrolled (see `run_threads_free`); only shapes without lookers,
+/// drainer and proxy qualify (every line such a shape logs sits at a safe position), and internal lines are dropped.
+fn one_run_impl(shape: &Shape, ex: &mut Explorer, free: Option<Vec<u32>>) -> (Vec<Value>, Value, bool) {
     let tag = RUN_SEQ.fetch_add(1, Ordering::SeqCst);
     let name = format!("reg-N-{tag}");
     // every local actor id created in this run (for pid lookups and the final projection)
@@ -187,7 +193,11 @@ pub fn one_run(shape: &Shape, ex: &mut Explorer) -> (Vec<Value>, Value, bool) {
             }),
         });
     }
-    let run = run_threads(threads, ex, 3000);
+    let is_free = free.is_some();
+    let run = match &free {
+        Some(spin) => crate::hctl::run_threads_free(threads, spin),
+        None => run_threads(threads, ex, 3000),
+    };
     let mut names = Names::default();
     names.who = run.names.who.clone();
     // label actors (role, attempt): the attempt counter of a role moves at obs.spawn_begin, the pid shows at new.named
@@ -221,8 +231,15 @@ pub fn one_run(shape: &Shape, ex: &mut Explorer) -> (Vec<Value>, Value, bool) {
         if e.a == "status.set" && e.d < 5 {
             continue;
         }
+        if is_free && !e.a.starts_with("obs.") {
+            continue;
+        }
         let mut j = ev_json(e, &names);
         let o = j.as_object_mut().unwrap();
+        if is_free && e.a == "obs.spawn_ret" && o.get("ok").and_then(|x| x.as_i64()) == Some(0) {
+            // logged some time after the call returned: the trace specification decides the failure silently, earlier
+            o.insert("a".into(), json!("obs.spawn_ret_free"));
+        }
         if e.a == "obs.where_is" || e.a == "obs.where_is_pid" {
             let pid = e.kv.iter().find(|(k, _)| k == "pid").and_then(|(_, v)| if let Val::I(i) = v { Some(*i) } else { None }).unwrap_or(-1);
             let (rs, rk) = lab(pid);
@@ -271,7 +288,7 @@ pub fn one_run(shape: &Shape, ex: &mut Explorer) -> (Vec<Value>, Value, bool) {
             _ => {}
         }
     }
-    let meta = json!({"family": "registry", "shape": format!("{shape:?}"), "sched": ex.sched, "steps": run.steps,
+    let meta = json!({"family": if is_free { "registry-free" } else { "registry" }, "shape": format!("{shape:?}"), "sched": ex.sched, "steps": run.steps,
                       "stuck": run.stuck, "overrun": run.overrun, "suspect": suspect});
     (evs, meta, bad)
 }
@@ -360,6 +377,29 @@ impl Actor for Quiet {
 /// (what ractor_cluster's NodeSession spawns for a remote group member named N) stops; afterwards
 /// `where_is(N)` no longer finds the local actor, a second local actor can take N while the first is
 /// alive, and the first one's exit then removes the second one's entry.
+/// Free-running batch: several spawners race for one name over and over, on real threads.
+pub fn batch_free(out: &str, tier: &str, seed: u64) -> Value {
+    let mut b = Batch::new(Some(out));
+    let mut rng = Rng(seed ^ 0x5eed_f4ee);
+    let runs = if tier == "thorough" { 12000 } else { 3000 };
+    let mut suspects = 0u64;
+    for r in 0..runs {
+        let n = 2 + (r % 2);
+        let shape = Shape { spawners: n, att: 1 + (r / 3) % 2, pre: (0..n).map(|i| (i + r) % 2 == 0).collect(), lookers: 0, looks: 0, proxy: false,
+                            pidfault: None, noevt: (0..n.max(3)).map(|i| (r / 7 + i) % 5 == 0).collect(), drainer: false };
+        let spin: Vec<u32> = (0..n).map(|_| rng.below(60) as u32).collect();
+        let mut ex = Explorer::new(Mode::Random, r as u64);
+        ex.begin_run();
+        let (evs, meta, _) = one_run_impl(&shape, &mut ex, Some(spin));
+        if meta.get("suspect").and_then(|x| x.as_bool()) == Some(true) {
+            suspects += 1;
+        }
+        b.run(meta, &evs);
+    }
+    b.finish();
+    json!({"family": "registry-free", "runs": b.runs, "events": b.events, "distinct": b.hashes.len(), "suspects": suspects, "samples": b.samples})
+}
+
 pub fn repro() -> Value {
     verif::enable(false);
     let rt = tokio::runtime::Builder::new_current_thread().enable_all().build().expect("runtime");
@@ -405,6 +445,7 @@ pub fn dispatch(cmd: &str, a: &HashMap<String, String>) -> Option<Value> {
     let (out, tier, seed) = crate::common(a);
     match cmd {
         "registry" => Some(batch(&out, &tier, seed)),
+        "registry-free" => Some(batch_free(&out, &tier, seed)),
         "registry-repro" => Some(repro()),
         // re-execute one schedule of one shape on the current tree (violation replays)
         "registry-replay" => {
